@@ -7,6 +7,7 @@ from .. import queries as Q
 from . import locks as L
 from .guards import guards
 
+from . import perform_names
 EXPLANATION = (
     'R8.1: static lockset on the claim maps of Cache. R8.2: every store that '
     'claims a key is dominated, inside the same critical section, by the '
@@ -357,7 +358,7 @@ def r8_5(ctx, rc):
                 'setup_failed' in R.record_fields[g.cls_for_ctor]]
         if not made:
             continue
-        sg = ctx.E.super(F, lambda g: False)
+        sg = ctx.helpers_graph(F, stop=perform_names(ctx))
         performs = [n for n in sg.nodes if n.kind == 'leaf' and
                     isinstance(n.callee, Func) and
                     n.callee.cls == R.builder and not n.callee.is_public and
